@@ -23,7 +23,7 @@ TECHNIQUE = ('small-scope enumeration of feature trajectories / count tables aga
              'over OpenMP schedules of the real compiled joint-count kernel (deviation-bounded, with write-set isolation runs)')
 RULE = ('X,Y: all integer arrays with frames<=3, features<=2, states<=3 for configurations with unequal feature and state counts '
         'x 8 integer dtypes (mixed pairs on a subset) x layouts {C,F,strided,negative stride} x n_x/n_y {None,exact,exact+1}; mixed integer widths with ids beyond the narrower type (127/128, 255/256, 300, 32767/32768); '
-        'bad ids (-1, n, frame mismatch) must be rejected (forked child); schedules: T=1..4 threads, <=2 (T: <=4) deviations, '
+        'bad ids (-1, n, frame mismatch; an id >= its own side\'s n but < the other side\'s n when n_x != n_y) must be rejected (forked child); uniform weights as 1/T, ones, a constant and integer multiplicities; schedules: T=1..4 threads, <=2 (T: <=4) deviations, '
         'isolation run per thread; MI laws on every table reached + all 2x2 and 2x3 tables over {0..3}; KL on all pairs of '
         'denominator-4 distributions (n=2,3); state=(X,Y,dtypes,layout,n mode | table | schedule); non-trivial = table with a '
         'zero cell and MI>0, or schedule with >1 enabled thread')
@@ -31,7 +31,7 @@ ASSUMPTIONS = ['MI/entropy identities compared at 1e-12 absolute (natural log)',
                'intra-chunk preemption covered by the write-set argument (per-thread partial count tables have disjoint support '
                'and sum to the total), not by enumeration',
                'NEP-49 poison allocator fills fresh numpy buffers with NaN during the run']
-GUARDS = {'kl_tiny': 20, 'wide_ids': 50, 'unequal_sides': 500, 'mixed_dtype': 100, 'strided': 100, 'rejected_bad_ids': 50, 'multi_enabled': 50,
+GUARDS = {'kl_tiny': 20, 'wide_ids': 50, 'unequal_sides': 500, 'mixed_dtype': 100, 'strided': 100, 'rejected_bad_ids': 50, 'unequal_declared_counts': 50, 'multi_enabled': 50,
           'tables_with_zero_cell': 500, 'rectangular_norm': 50, 'pooled': 100, 'weighted': 100, 'kl_pairs': 200}
 EXT = 'enspara.info_theory.libinfo'
 DTYPES = ('int8', 'int16', 'int32', 'int64', 'uint8', 'uint16', 'uint32', 'uint64')
@@ -211,11 +211,15 @@ def check_self(case, ctx):
     # weighted estimator with uniform weights
     for norm in (False, True):
         try:
-            W = mi.weighted_mi(X.astype('int64'), np.full(T, 1.0 / T), n_feature_states=np.full(f, n), normalize=norm)
             ref = M / math.log(n) if norm else M
-            ctx.guard('weighted')
-            if np.abs(W - ref).max() > 1e-12:
-                ctx.violation('weighted_mi:differs_from_unweighted', case, 'weighted %r vs %r (normalize=%r)' % (W.tolist(), ref.tolist(), norm))
+            # uniform weights in every spelling: already normalised, all ones, any constant, integer multiplicities
+            for wname, wv in (('1/T', np.full(T, 1.0 / T)), ('ones', np.ones(T)), ('const', np.full(T, 2.5)), ('int', np.full(T, 3, dtype=np.int64))):
+                W = mi.weighted_mi(X.astype('int64'), wv, n_feature_states=np.full(f, n), normalize=norm)
+                ctx.guard('weighted')
+                if np.abs(W - ref).max() > 1e-12:
+                    ctx.violation('weighted_mi:differs_from_unweighted:%s' % ('normalised' if wname == '1/T' else 'unnormalised'), case,
+                                  'uniform weights %s: weighted %r vs %r (normalize=%r)' % (wname, W.tolist(), ref.tolist(), norm))
+                    break
         except Exception as e:
             ctx.violation('weighted_mi:raises:%s' % type(e).__name__, case, 'weighted_mi raised %r on %r' % (e, case))
             break
@@ -389,6 +393,32 @@ def check_reject(ctx):
             ctx.violation('joint_counts:%s:crash' % kind, case, 'process died with signal %r on %r' % (res[1], case))
         else:
             ctx.violation('joint_counts:%s:accepted' % kind, case, 'state id %d accepted with n=2; table %r (%r)' % (val, res[1], case))
+    # sides with DIFFERENT declared state counts: an id that is too large for its own side but smaller than the other
+    # side's count must still be rejected (each side is checked against its own n)
+    for dt in ('int8', 'int32', 'int64', 'uint8', 'uint16'):
+        for nx, ny in ((5, 3), (3, 5), (2, 4), (7, 2)):
+            for side in ('X', 'Y'):
+                own, other = (nx, ny) if side == 'X' else (ny, nx)
+                if own >= other:
+                    continue
+                for val in range(own, other):
+                    for pos in ((0, 0), (2, 1), (1, 1)):
+                        X = (np.arange(6).reshape(3, 2) % nx).astype(dt)
+                        Y = (np.arange(6).reshape(3, 2)[::-1] % ny).astype(dt)
+                        (X if side == 'X' else Y)[pos] = val
+                        case = {'kind': 'reject', 'what': 'id_too_large_for_own_side', 'dtype': dt, 'pos': list(pos), 'side': side, 'value': val,
+                                'n_x': nx, 'n_y': ny}
+                        ctx.ev()
+                        ctx.state(('reject', 'own_side', dt, pos, side, val, nx, ny), nontrivial=True)
+                        res = in_child(lambda X=X, Y=Y, nx=nx, ny=ny: np.asarray(mi.joint_counts(X, Y, n_x=nx, n_y=ny)).tolist())
+                        if res[0] == 'raised':
+                            ctx.guard('rejected_bad_ids')
+                            ctx.guard('unequal_declared_counts')
+                        elif res[0] == 'crashed':
+                            ctx.violation('joint_counts:id_too_large_for_own_side:crash', case, 'process died with signal %r on %r' % (res[1], case))
+                        else:
+                            ctx.violation('joint_counts:id_too_large_for_own_side:accepted', case,
+                                          'state id %d on side %s accepted with n_x=%d n_y=%d; table %r' % (val, side, nx, ny, res[1]))
     # frame-count mismatch
     for dt in ('int32', 'uint8'):
         ctx.ev()
